@@ -30,6 +30,7 @@ def main():
         seed = int(seed)
     except ValueError:
         seed = abs(hash(seed)) % (2 ** 31)
+    os.environ.setdefault("VERIF_WATCHDOG", "240" if a.tier == "quick" else "3000")
     mod = importlib.import_module("checks." + prop.lower())
     t0 = time.time()
     snap = Snapshot()
